@@ -225,11 +225,11 @@ theorem mem_takeWhile_true {α : Type} {p : α → Bool} {l : List α} {x : α} 
     · rw [List.takeWhile_cons_of_neg hy] at h; cases h
 
 theorem cropMin_cases (a : Rat) (xs : LI L) :
-    (cropMin a xs = xs ∧ xs.dropWhile (fun x => decide (x.2.1 < a)) = []) ∨
-    (cropMin a xs = xs.dropWhile (fun x => decide (x.2.1 < a)) ∧
-      xs.dropWhile (fun x => decide (x.2.1 < a)) ≠ []) := by
+    (cropMin a xs = xs ∧ xs.dropWhile (fun x => decide (x.2.1 ≤ a)) = []) ∨
+    (cropMin a xs = xs.dropWhile (fun x => decide (x.2.1 ≤ a)) ∧
+      xs.dropWhile (fun x => decide (x.2.1 ≤ a)) ≠ []) := by
   unfold cropMin
-  cases h : xs.dropWhile (fun x => decide (x.2.1 < a)) with
+  cases h : xs.dropWhile (fun x => decide (x.2.1 ≤ a)) with
   | nil => exact Or.inl ⟨rfl, rfl⟩
   | cons y k => exact Or.inr ⟨rfl, by simp⟩
 
@@ -247,16 +247,16 @@ theorem labelAt_cropMin {a t : Rat} (h : a ≤ t) (xs : LI L) : labelAt (cropMin
   rcases cropMin_cases a xs with ⟨h1, _⟩ | ⟨h1, _⟩
   · rw [h1]
   · rw [h1]
-    conv_rhs => rw [← List.takeWhile_append_dropWhile (p := fun x => decide (x.2.1 < a)) (l := xs)]
+    conv_rhs => rw [← List.takeWhile_append_dropWhile (p := fun x => decide (x.2.1 ≤ a)) (l := xs)]
     rw [labelAt_append]
-    have : labelAt (xs.takeWhile (fun x => decide (x.2.1 < a))) t = none := by
+    have : labelAt (xs.takeWhile (fun x => decide (x.2.1 ≤ a))) t = none := by
       apply labelAt_none_of
       intro x hx hc
       have := mem_takeWhile_true hx
       simp only [decide_eq_true_eq] at this
       linarith [hc.2]
     rw [this]
-    cases labelAt (xs.dropWhile (fun x => decide (x.2.1 < a))) t <;> rfl
+    cases labelAt (xs.dropWhile (fun x => decide (x.2.1 ≤ a))) t <;> rfl
 
 theorem labelAt_clipMin {a t : Rat} (h : a ≤ t) (xs : LI L) : labelAt (clipMin a xs) t = labelAt xs t := by
   unfold clipMin
@@ -337,7 +337,7 @@ theorem labelAt_cropMax {b t lo : Rat} (h : t < b) {xs : LI L} (hw : WChain lo x
   | nil => rfl
   | cons x r ih =>
     unfold cropMax
-    by_cases hx : x.1 ≤ b
+    by_cases hx : x.1 < b
     · rw [List.takeWhile_cons_of_pos (by simpa using hx), labelAt_cons, labelAt_cons]
       have := ih hw.2.2
       unfold cropMax at this
@@ -494,7 +494,7 @@ theorem mem_clipMax {b : Rat} {xs : LI L} {y : Rat × Rat × L} (h : y ∈ clipM
 
 theorem cropMax_prefix (b : Rat) (xs : LI L) : cropMax b xs <+: xs := List.takeWhile_prefix _
 
-theorem mem_cropMax {b : Rat} {xs : LI L} {x : Rat × Rat × L} (h : x ∈ cropMax b xs) : x ∈ xs ∧ x.1 ≤ b := by
+theorem mem_cropMax {b : Rat} {xs : LI L} {x : Rat × Rat × L} (h : x ∈ cropMax b xs) : x ∈ xs ∧ x.1 < b := by
   refine ⟨(cropMax_prefix b xs).subset h, ?_⟩
   have := mem_takeWhile_true h
   simpa using this
@@ -527,7 +527,7 @@ theorem adjustMin_wchain {lo a : Rat} {sl : L} {xs out : LI L} (h : WChain lo xs
 theorem adjustMax_wchain {lo b : Rat} {el : L} {xs out : LI L} (h : WChain lo xs)
     (ho : adjustMax b el xs = .ok out) :
     WChain (min b lo) out ∧ (∃ z, out.getLast? = some z ∧ z.2.1 = b) ∧
-      (∀ hd tl, xs = hd :: tl → hd.1 ≤ b ∧ ∃ tl', out = (min b hd.1, min b hd.2.1, hd.2.2) :: tl') := by
+      (∀ hd tl, xs = hd :: tl → hd.1 < b ∧ ∃ tl', out = (min b hd.1, min b hd.2.1, hd.2.2) :: tl') := by
   obtain ⟨m, hm, hout⟩ := adjustMax_ok ho
   have hc : WChain (min b lo) (clipMax b (cropMax b xs)) := (h.prefix (cropMax_prefix b xs)).clipMax
   have hcne : clipMax b (cropMax b xs) ≠ [] := by
@@ -543,11 +543,11 @@ theorem adjustMax_wchain {lo b : Rat} {el : L} {xs out : LI L} (h : WChain lo xs
   have hzb : z.2.1 ≤ b := by
     obtain ⟨x, _, hx⟩ := mem_clipMax (List.mem_of_getLast? hz)
     rw [hx]; exact min_le_left _ _
-  have hhead : ∀ hd tl, xs = hd :: tl → hd.1 ≤ b ∧
+  have hhead : ∀ hd tl, xs = hd :: tl → hd.1 < b ∧
       ∃ tl', clipMax b (cropMax b xs) = (min b hd.1, min b hd.2.1, hd.2.2) :: tl' := by
     intro hd tl hx
     subst hx
-    by_cases hb : hd.1 ≤ b
+    by_cases hb : hd.1 < b
     · refine ⟨hb, ?_⟩
       unfold cropMax clipMax
       rw [List.takeWhile_cons_of_pos (by simpa using hb)]
@@ -627,7 +627,7 @@ theorem adjustMax_lb {a b : Rat} {el : L} {xs out : LI L} (ho : adjustMax b el x
   obtain ⟨w, hw, hmw⟩ := mem_entries.1 hsp.1
   obtain ⟨w', hw', rfl⟩ := mem_clipMax hw
   have hw'' := mem_cropMax hw'
-  have hab : a ≤ b := le_trans (hlb w' hw''.1).1 hw''.2
+  have hab : a ≤ b := le_trans (hlb w' hw''.1).1 (le_of_lt hw''.2)
   have hc : ∀ x ∈ clipMax b (cropMax b xs), a ≤ x.1 ∧ a ≤ x.2.1 := by
     intro x hx
     obtain ⟨y, hy, rfl⟩ := mem_clipMax hx
@@ -672,7 +672,7 @@ theorem dropWhile_nil_all {α : Type} {p : α → Bool} {l : List α} (h : l.dro
     · rw [List.dropWhile_cons_of_neg hy] at h; cases h
 
 theorem adjustMin_posdur {lo a : Rat} {sl : L} {xs out : LI L} (h : Chain lo xs)
-    (hno : ∀ x ∈ xs, x.2.1 ≠ a) (hex : ∃ x ∈ xs, a < x.2.1) (ho : adjustMin a sl xs = .ok out) :
+    (hex : ∃ x ∈ xs, a < x.2.1) (ho : adjustMin a sl xs = .ok out) :
     ∀ x ∈ out, x.1 < x.2.1 := by
   obtain ⟨m, hm, hout⟩ := adjustMin_ok ho
   have hcrop : ∀ y ∈ cropMin a xs, y.1 < y.2.1 ∧ a < y.2.1 := by
@@ -682,22 +682,22 @@ theorem adjustMin_posdur {lo a : Rat} {sl : L} {xs out : LI L} (h : Chain lo xs)
       have := dropWhile_nil_all h2 x hx
       simp only [decide_eq_true_eq] at this
       linarith
-    · cases hd : xs.dropWhile (fun x => decide (x.2.1 < a)) with
+    · cases hd : xs.dropWhile (fun x => decide (x.2.1 ≤ a)) with
       | nil => exact absurd hd h2
       | cons k r =>
         have hk := dropWhile_head_false hd
-        simp only [decide_eq_false_iff_not, not_lt] at hk
+        simp only [decide_eq_false_iff_not, not_le] at hk
         have hsuf : (k :: r) <:+ xs := by rw [← hd]; exact List.dropWhile_suffix _
         have hch := h.suffix hsuf
         rw [h1, hd]
         intro y hy
         have hyx : y ∈ xs := hsuf.subset hy
-        have hge : a ≤ y.2.1 := by
+        have hge : a < y.2.1 := by
           rcases List.mem_cons.1 hy with rfl | hy
           · exact hk
           · have := hch.2.2.lb y hy
             linarith [this.1, this.2]
-        exact ⟨(h.lb y hyx).2, lt_of_le_of_ne hge (Ne.symm (hno y hyx))⟩
+        exact ⟨(h.lb y hyx).2, hge⟩
   have hc : ∀ x ∈ clipMin a (cropMin a xs), x.1 < x.2.1 := by
     intro x hx
     obtain ⟨y, hy, rfl⟩ := mem_clipMin hx
@@ -713,7 +713,7 @@ theorem adjustMin_posdur {lo a : Rat} {sl : L} {xs out : LI L} (h : Chain lo xs)
   · rw [if_neg hlt] at hout; subst hout; exact hc
 
 theorem adjustMax_posdur {b : Rat} {el : L} {xs out : LI L}
-    (hpos : ∀ x ∈ xs, x.1 < x.2.1 ∧ x.1 ≠ b) (ho : adjustMax b el xs = .ok out) :
+    (hpos : ∀ x ∈ xs, x.1 < x.2.1) (ho : adjustMax b el xs = .ok out) :
     ∀ x ∈ out, x.1 < x.2.1 := by
   obtain ⟨m, hm, hout⟩ := adjustMax_ok ho
   have hc : ∀ x ∈ clipMax b (cropMax b xs), x.1 < x.2.1 := by
@@ -721,7 +721,7 @@ theorem adjustMax_posdur {b : Rat} {el : L} {xs out : LI L}
     obtain ⟨y, hy, rfl⟩ := mem_clipMax hx
     have h1 := mem_cropMax hy
     have h2 := hpos y h1.1
-    have : y.1 < b := lt_of_le_of_ne h1.2 h2.2
+    have : y.1 < b := h1.2
     simp only
     grind
   by_cases hlt : m < b
@@ -762,26 +762,33 @@ theorem adjustIntervals_nil_ok {out : LI L} {tmin tmax : Option Rat} {sl el : L}
 
 /-! ### the labelling through the two stages, for time-ordered input -/
 
-/-- `c` does not fall strictly inside an internal gap of the annotation -/
-def NoStraddle (c : Rat) : LI L → Prop
-  | x :: y :: r => ¬ (x.2.1 < c ∧ c < y.1) ∧ NoStraddle c (y :: r)
+/-- `t_max = c` does not cut an internal gap: no gap `[e, s')` with `e < c ≤ s'`
+    (a row starting exactly at `t_max` is dropped, so `c = s'` exposes the gap before it) -/
+def NoStraddleMax (c : Rat) : LI L → Prop
+  | x :: y :: r => ¬ (x.2.1 < c ∧ c ≤ y.1) ∧ NoStraddleMax c (y :: r)
   | _ => True
 
-theorem NoStraddle.tail {c : Rat} {x : Rat × Rat × L} {r : LI L} (h : NoStraddle c (x :: r)) :
-    NoStraddle c r := by
+/-- `t_min = c` does not cut an internal gap: no gap `[e, s')` with `e ≤ c < s'`
+    (a row ending exactly at `t_min` is dropped, so `c = e` exposes the gap after it) -/
+def NoStraddleMin (c : Rat) : LI L → Prop
+  | x :: y :: r => ¬ (x.2.1 ≤ c ∧ c < y.1) ∧ NoStraddleMin c (y :: r)
+  | _ => True
+
+theorem NoStraddleMax.tail {c : Rat} {x : Rat × Rat × L} {r : LI L} (h : NoStraddleMax c (x :: r)) :
+    NoStraddleMax c r := by
   cases r with
   | nil => trivial
   | cons y r' => exact h.2
 
-theorem NoStraddle.suffix {c : Rat} {xs ys : LI L} (h : NoStraddle c xs) (hs : ys <:+ xs) :
-    NoStraddle c ys := by
+theorem NoStraddleMax.suffix {c : Rat} {xs ys : LI L} (h : NoStraddleMax c xs) (hs : ys <:+ xs) :
+    NoStraddleMax c ys := by
   obtain ⟨pre, rfl⟩ := hs
   induction pre with
   | nil => exact h
   | cons p r ih => exact ih h.tail
 
-theorem NoStraddle.clipMin {a b : Rat} (hab : a < b) {xs : LI L} (h : NoStraddle b xs) :
-    NoStraddle b (clipMin a xs) := by
+theorem NoStraddleMax.clipMin {a b : Rat} (hab : a < b) {xs : LI L} (h : NoStraddleMax b xs) :
+    NoStraddleMax b (clipMin a xs) := by
   induction xs with
   | nil => trivial
   | cons x r ih =>
@@ -794,15 +801,15 @@ theorem NoStraddle.clipMin {a b : Rat} (hab : a < b) {xs : LI L} (h : NoStraddle
       grind
 
 theorem dropWhile_head_start {lo a t : Rat} {x0 k : Rat × Rat × L} {r r' : LI L}
-    (h : Chain lo (x0 :: r)) (hs : NoStraddle a (x0 :: r)) (ht : a ≤ t)
-    (hd : (x0 :: r).dropWhile (fun x => decide (x.2.1 < a)) = k :: r') : (t < k.1 ↔ t < x0.1) := by
+    (h : Chain lo (x0 :: r)) (hs : NoStraddleMin a (x0 :: r)) (ht : a ≤ t)
+    (hd : (x0 :: r).dropWhile (fun x => decide (x.2.1 ≤ a)) = k :: r') : (t < k.1 ↔ t < x0.1) := by
   induction r generalizing x0 lo with
   | nil =>
-    by_cases hp : x0.2.1 < a
+    by_cases hp : x0.2.1 ≤ a
     · rw [List.dropWhile_cons_of_pos (by simpa using hp)] at hd; cases hd
     · rw [List.dropWhile_cons_of_neg (by simpa using hp)] at hd; cases hd; rfl
   | cons y r'' ih =>
-    by_cases hp : x0.2.1 < a
+    by_cases hp : x0.2.1 ≤ a
     · rw [List.dropWhile_cons_of_pos (by simpa using hp)] at hd
       rw [ih h.2.2 hs.2 hd]
       have h1 := h.2.1
@@ -811,7 +818,7 @@ theorem dropWhile_head_start {lo a t : Rat} {x0 k : Rat × Rat × L} {r r' : LI 
     · rw [List.dropWhile_cons_of_neg (by simpa using hp)] at hd; cases hd; rfl
 
 theorem labelAt_adjustMin_chain {lo a t : Rat} {sl : L} {x0 : Rat × Rat × L} {r out : LI L}
-    (h : Chain lo (x0 :: r)) (hs : NoStraddle a (x0 :: r)) (ho : adjustMin a sl (x0 :: r) = .ok out)
+    (h : Chain lo (x0 :: r)) (hs : NoStraddleMin a (x0 :: r)) (ho : adjustMin a sl (x0 :: r) = .ok out)
     (ht : a ≤ t) : labelAt out t = if t < x0.1 then some sl else labelAt (x0 :: r) t := by
   obtain ⟨m, hm, hout⟩ := adjustMin_ok ho
   rw [labelAt_adjustMin hm hout ht]
@@ -862,9 +869,9 @@ theorem adjustMin_last {a : Rat} {sl : L} {xs out : LI L} {z : Rat × Rat × L} 
   · rw [if_neg hlt] at hout; subst hout; exact ⟨_, hcl, rfl⟩
 
 theorem adjustMin_noStraddle {lo a b : Rat} {sl : L} {xs out : LI L} (h : WChain lo xs)
-    (hab : a < b) (hs : NoStraddle b xs) (ho : adjustMin a sl xs = .ok out) : NoStraddle b out := by
+    (hab : a < b) (hs : NoStraddleMax b xs) (ho : adjustMin a sl xs = .ok out) : NoStraddleMax b out := by
   obtain ⟨m, hm, hout⟩ := adjustMin_ok ho
-  have hc : NoStraddle b (clipMin a (cropMin a xs)) := (hs.suffix (cropMin_suffix a xs)).clipMin hab
+  have hc : NoStraddleMax b (clipMin a (cropMin a xs)) := (hs.suffix (cropMin_suffix a xs)).clipMin hab
   by_cases hlt : a < m
   · rw [if_pos hlt] at hout; subst hout
     cases hk : clipMin a (cropMin a xs) with
@@ -881,8 +888,8 @@ theorem adjustMin_noStraddle {lo a b : Rat} {sl : L} {xs out : LI L} (h : WChain
   · rw [if_neg hlt] at hout; subst hout; exact hc
 
 theorem takeWhile_last_end {lo b t : Rat} {x0 z z' : Rat × Rat × L} {r : LI L}
-    (h : WChain lo (x0 :: r)) (hs : NoStraddle b (x0 :: r)) (ht : t < b) (hx0 : x0.1 ≤ b)
-    (hz' : ((x0 :: r).takeWhile (fun x => decide (x.1 ≤ b))).getLast? = some z')
+    (h : WChain lo (x0 :: r)) (hs : NoStraddleMax b (x0 :: r)) (ht : t < b) (hx0 : x0.1 < b)
+    (hz' : ((x0 :: r).takeWhile (fun x => decide (x.1 < b))).getLast? = some z')
     (hz : (x0 :: r).getLast? = some z) : (z'.2.1 ≤ t ↔ z.2.1 ≤ t) := by
   induction r generalizing x0 lo with
   | nil =>
@@ -892,7 +899,7 @@ theorem takeWhile_last_end {lo b t : Rat} {x0 z z' : Rat × Rat × L} {r : LI L}
   | cons y r' ih =>
     rw [List.takeWhile_cons_of_pos (by simpa using hx0)] at hz'
     rw [List.getLast?_cons_cons] at hz
-    by_cases hy : y.1 ≤ b
+    by_cases hy : y.1 < b
     · rw [List.takeWhile_cons_of_pos (by simpa using hy), List.getLast?_cons_cons] at hz'
       have := ih h.2.2 hs.2 hy (by rw [List.takeWhile_cons_of_pos (by simpa using hy)]; exact hz') hz
       exact this
@@ -905,7 +912,7 @@ theorem takeWhile_last_end {lo b t : Rat} {x0 z z' : Rat × Rat × L} {r : LI L}
       constructor <;> intro hh <;> exfalso <;> grind
 
 theorem labelAt_adjustMax_chain {lo b t : Rat} {el : L} {xs out : LI L} {z : Rat × Rat × L}
-    (hw : WChain lo xs) (hs : NoStraddle b xs) (hz : xs.getLast? = some z)
+    (hw : WChain lo xs) (hs : NoStraddleMax b xs) (hz : xs.getLast? = some z)
     (ho : adjustMax b el xs = .ok out) (ht : t < b) :
     labelAt out t = if z.2.1 ≤ t then some el else labelAt xs t := by
   obtain ⟨m, hm, hout⟩ := adjustMax_ok ho
@@ -917,7 +924,7 @@ theorem labelAt_adjustMax_chain {lo b t : Rat} {el : L} {xs out : LI L} {z : Rat
   | nil => rw [hxs] at hz; cases hz
   | cons x0 r =>
     subst hxs
-    have hx0 : x0.1 ≤ b := by
+    have hx0 : x0.1 < b := by
       by_contra hb
       apply hcne
       unfold cropMax
@@ -1352,7 +1359,7 @@ theorem adjustMin_total {a : Rat} {sl : L} {xs : LI L} (hne : xs ≠ []) : ∃ o
   simp only [hm]
   split <;> exact ⟨_, rfl⟩
 
-theorem adjustMax_total {b : Rat} {el : L} {hd : Rat × Rat × L} {tl : LI L} (h : hd.1 ≤ b) :
+theorem adjustMax_total {b : Rat} {el : L} {hd : Rat × Rat × L} {tl : LI L} (h : hd.1 < b) :
     ∃ out, adjustMax b el (hd :: tl) = .ok out := by
   unfold adjustMax
   have : entries (clipMax b (cropMax b (hd :: tl))) ≠ [] := by
